@@ -9,7 +9,7 @@ from checks import common
 BINS = ["vh-datagram"]
 PID = "C19"
 COMP = "Datagram"
-SOFT = ("SoftFrameWithinPeerMax", "SoftFullPacketProgress", "SoftAcceptedNeverKillsPeer", "SoftAcceptedEventuallyOnWire")
+SOFT = ("SoftFrameWithinPeerMax", "SoftFullPacketProgress", "SoftAcceptedNeverKillsPeer", "SoftAcceptedEventuallyOnWire", "SoftHeadOfLineBlocked")
 TRACE_CFG = common.trace_cfg(invs=("Inv",) + SOFT)
 TRACE_CONSTS = {"Intended": "FALSE"}
 MC_CODE = "SPECIFICATION MCSpec\nINVARIANT Inv\nPROPERTY AcceptedEventuallyOnWire\nCHECK_DEADLOCK FALSE\n"
@@ -28,18 +28,21 @@ def hit(line):
 
 def mc_jobs(quick):
     base = {"MaxPkt": 100, "Spaces": "{}", "InjSizes": "{65}", "MaxInj": 1}
-    code = dict(base, Intended="FALSE", PeerMaxes="{0, 66}", Sizes="{0, 64, 65}" if quick else "{0, 63, 64, 65, 66}",
+    code = dict(base, Intended="FALSE", PeerMaxes="{0, 66}", Sizes="{0, 65}" if quick else "{0, 63, 64, 65, 66}",
                 MaxSend=2 if quick else 3)
-    intended = dict(base, Intended="TRUE", PeerMaxes="{0, 66}", Sizes="{64, 65, 500}" if quick else "{0, 64, 65, 66, 500}",
+    intended = dict(base, Intended="TRUE", PeerMaxes="{0, 66}", Sizes="{65, 500}" if quick else "{0, 64, 65, 66, 500}",
                     MaxSend=2 if quick else 3)
     return [("MC_Datagram/code", PID + "/mc_code", MC_CODE, code), ("MC_Datagram/intended", PID + "/mc_intended", MC_INTENDED, intended)]
 
 
 def gen_jobs(quick):
-    g = lambda **k: dict({"Intended": "FALSE", "Big": 70000, "MaxPktG": MAXPKT, "LocalMaxes": "{}"}, **k)
+    g = lambda **k: dict({"Intended": "FALSE", "SendBase": "{0, 1, 70000}", "SendAround": "{0, 1, 2, 3, 4, 5}", "MaxPktG": MAXPKT, "LocalMaxes": "{}"}, **k)
     jobs = [
         # sender -> network -> receiver with localMax = peerMax around the 1/2-byte varint boundary (limit 66)
         ("pair66", g(PeerMaxes="{66}", MaxPktG=100, Ops='{"send", "pack", "deliver", "read"}', Depth=3 if quick else 5), None),
+        # the whole path send -> pack -> deliver -> read, two datagrams deep, both varint lengths
+        ("e2e", g(PeerMaxes="{66}", MaxPktG=100, SendBase="{0}", SendAround="{3}", Ops='{"send", "pack", "lose", "deliver", "read"}',
+                  Depth=5 if quick else 6), None),
         # every limit class incl. 0 = disabled, tiny, the 2/4-byte varint boundary, the maximum; no injected frames
         ("limits", g(PeerMaxes="{0, 8, 16390}" if quick else "{0, 1, 8, 64, 1200, 16390, 65535}",
                      Ops='{"send", "pack", "packfull", "lose", "deliver", "read", "connerr"}', Depth=3 if quick else 4), None),
@@ -48,7 +51,10 @@ def gen_jobs(quick):
                    Ops='{"inject", "read", "connerr"}', Depth=2 if quick else 3), None),
         # random deep walks over everything
         ("walks", g(PeerMaxes="{0, 8, 66, 1200, 16390, 65535}", Ops=ALL_OPS, Depth=14 if quick else 24),
-         {"num": 200 if quick else 6000, "depth": 40}),       # every last-step alternative is emitted: ~30 behaviours per walk
+         {"num": 100 if quick else 4000, "depth": 40}),       # every last-step alternative is emitted: ~30 behaviours per walk
+        # random deep walks of an undisturbed connection (no injected frames, no connection error): deliveries and reads dominate
+        ("walks_e2e", g(PeerMaxes="{8, 66, 1200, 16390, 65535}", SendAround="{0, 1, 2, 3, 4}", Ops='{"send", "pack", "packfull", "lose", "deliver", "read"}',
+                        Depth=14 if quick else 24), {"num": 150 if quick else 5000, "depth": 40}),
     ]
     return jobs
 
@@ -61,6 +67,8 @@ def scenarios(quick):
         {"seed": 3, "cmax": 0, "smax": 1200, "sizes": [1, 500, 1000, 1198, 1199, 1200], "drop": 0, "wait_ms": 3000},
         {"seed": 4, "cmax": 100, "smax": 50, "sizes": [10, 30, 49, 50, 20], "drop": 30, "wait_ms": 3000},
         {"seed": 5, "cmax": 65535, "smax": 1200, "sizes": [700] * 12, "drop": 25, "wait_ms": 5000, "gap_ms": 0},
+        # a datagram below the peer's limit but larger than any packet of the path, then small ones (deviation D2)
+        {"seed": 6, "cmax": 65535, "smax": 65535, "sizes": [1300, 10, 10], "drop": 0, "wait_ms": 3000},
     ]
     for i in range(7 if quick else 300):
         smax = rnd.choice([20, 100, 1000, 1200, 16390, 65535])
@@ -101,7 +109,7 @@ def run(tier, rep):
         return name, st, beh
 
     # TLC start-up dominates on a loaded machine: model checks and generators run side by side
-    with ThreadPoolExecutor(max_workers=6) as ex:
+    with ThreadPoolExecutor(max_workers=8) as ex:
         mcs = [ex.submit(do_mc, j) for j in mc_jobs(quick)]
         gens = [ex.submit(do_gen, j) for j in gen_jobs(quick)]
         mcs = [f.result() for f in mcs]
